@@ -31,9 +31,9 @@ void harness(void){
    * construction (t = X w on the deflated X), so the PLS fit IS the OLS fit. */
   double X0[HP_N][HP_M]; for(size_t i=0;i<HP_N;i++)for(size_t j=0;j<HP_M;j++) X0[i][j]=X->data[i][j];
 #if HP_M==1
-  { double xx=0; for(size_t i=0;i<HP_N;i++) xx+=X0[i][0]*X0[i][0]; ASSUME(xx>=1e-4); }
+  { double xx=0; for(size_t i=0;i<HP_N;i++) xx+=X0[i][0]*X0[i][0]; ASSUME(xx>=1e-12); }
 #else
-  { double a=0,bb=0,cc=0; for(size_t i=0;i<HP_N;i++){ a+=X0[i][0]*X0[i][0]; bb+=X0[i][0]*X0[i][1]; cc+=X0[i][1]*X0[i][1]; } ASSUME(a*cc-bb*bb>=1e-4); }   /* Gram determinant: full column rank */
+  { double a=0,bb=0,cc=0; for(size_t i=0;i<HP_N;i++){ a+=X0[i][0]*X0[i][0]; bb+=X0[i][0]*X0[i][1]; cc+=X0[i][1]*X0[i][1]; } ASSUME(a*cc-bb*bb>=1e-12); }   /* Gram determinant: full column rank */
 #endif
   Ycur=Y;
   for(size_t k=0;k<HP_M;k++){ LVCalc(X,Y,t,u,p,q,w,&b); }
